@@ -74,6 +74,7 @@ type peer struct {
 	subs    map[wamp.ID]subInfo
 	callReq map[wamp.ID]string
 	joined  bool
+	local   bool
 	gone    bool // the router closed the transport
 }
 
@@ -119,6 +120,7 @@ type Exec struct {
 	regC   *canon
 	pubC   *canon
 	badIDs int
+	poison bool
 	baseRegs map[wamp.ID]bool // registrations of the realm's own meta procedures
 	base   map[string]int
 	baseG  int
@@ -162,7 +164,12 @@ func (x *Exec) RunScenario(sc *Scenario) {
 		AllowDisclose:  sc.Cfg.Disclose,
 		EnableMetaKill: sc.Cfg.Metakill,
 		Authenticators: []auth.Authenticator{auth.NewTicketAuthenticator(&keyStore{users}, 0)},
+		RequireLocalAuthz: sc.Cfg.Lauthz,
 	}
+	if len(sc.Cfg.Authz) != 0 {
+		rc.Authorizer = &tableAuthorizer{rules: sc.Cfg.Authz}
+	}
+	x.poison = sc.Poison
 	for _, h := range sc.Cfg.Hcfg {
 		rc.TopicEventHistoryConfigs = append(rc.TopicEventHistoryConfigs,
 			&router.TopicEventHistoryConfig{Topic: wamp.URI(unchars(h.U)), MatchPolicy: h.M, Limit: h.N})
@@ -209,6 +216,9 @@ func normCfg(c Cfg) Cfg {
 	}
 	if c.Users == nil {
 		c.Users = []User{}
+	}
+	if c.Authz == nil {
+		c.Authz = []Rule{}
 	}
 	return c
 }
@@ -291,7 +301,15 @@ func (x *Exec) newPeer(name string, j Join) *peer {
 	if !j.Local {
 		rp = remotePeer{rtr}
 	}
-	go func() { _ = x.rt.Attach(rp) }()
+	if j.Local {
+		go func() { _ = x.rt.Attach(rp) }()
+	} else {
+		// a network peer comes with transport details, including authentication
+		// data that must never be shown to other sessions (C12)
+		td := wamp.Dict{"kind": "verif", "auth": wamp.Dict{"cookie": "secret-" + name}}
+		go func() { _ = x.rt.AttachClient(rp, td) }()
+	}
+	p.local = j.Local
 	// reader
 	go func() {
 		for {
@@ -934,6 +952,9 @@ func (x *Exec) collect(in Input) ([]SessOut, Bind) {
 		for _, s := range raw {
 			m := x.abstract(p, s)
 			so.M = append(so.M, m)
+			if x.poison && p.local {
+				poisonMsg(s.m)
+			}
 			if m.K == "CLOSED" {
 				p.gone = true
 			}
@@ -951,7 +972,7 @@ func (x *Exec) collect(in Input) ([]SessOut, Bind) {
 					b.Pub = m.A
 				}
 			case "EVENT":
-				if in.Op == "publish" && m.B != 0 && b.Pub == 0 && m.P == in.Tag {
+				if in.Op == "publish" && m.B != 0 && b.Pub == 0 && (m.P == in.Tag || m.P == "rw") {
 					b.Pub = m.B
 				}
 			case "REGISTERED":
@@ -959,7 +980,7 @@ func (x *Exec) collect(in Input) ([]SessOut, Bind) {
 					b.Reg = m.A
 				}
 			case "INVOCATION":
-				if in.Op == "call" && m.P == in.Tag {
+				if in.Op == "call" && (m.P == in.Tag || m.P == "rw") {
 					b.Inv, b.Reg, b.Callee = m.Req, m.A, name
 				}
 			case "RESULT":
@@ -1252,4 +1273,81 @@ func (x *Exec) learnBaseline() {
 	for range cli.Recv() {
 	}
 	synctest.Wait()
+}
+
+// ---------------------------------------------------------------------------
+// C12: a lousy in-process recipient scribbles over what it received
+
+func poisonMsg(m wamp.Message) {
+	switch m := m.(type) {
+	case *wamp.Event:
+		poisonParts(m.Details, m.Arguments, m.ArgumentsKw)
+	case *wamp.Invocation:
+		poisonParts(m.Details, m.Arguments, m.ArgumentsKw)
+	}
+}
+
+func poisonParts(d wamp.Dict, a wamp.List, kw wamp.Dict) {
+	if d != nil {
+		d["poison"] = "POISON"
+		d["topic"] = "poison.topic"
+	}
+	for i := range a {
+		a[i] = "POISON"
+	}
+	for k := range kw {
+		kw[k] = "POISON"
+	}
+}
+
+// ---------------------------------------------------------------------------
+// C10: table driven authorizer
+
+type tableAuthorizer struct{ rules []Rule }
+
+func (t *tableAuthorizer) Authorize(sess *wamp.Session, msg wamp.Message) (bool, error) {
+	role, _ := wamp.AsString(sess.Details["authrole"])
+	method, _ := wamp.AsString(sess.Details["authmethod"])
+	local := method == "local"
+	mt := msg.MessageType().String()
+	for _, r := range t.rules {
+		if r.Mt != mt {
+			continue
+		}
+		switch r.Who {
+		case "any":
+		case "local":
+			if !local {
+				continue
+			}
+		case "remote":
+			if local {
+				continue
+			}
+		default:
+			if role != r.Who {
+				continue
+			}
+		}
+		switch r.Dec {
+		case "deny":
+			return false, nil
+		case "fail":
+			return false, errors.New("authorizer failed")
+		case "rewrite":
+			switch m := msg.(type) {
+			case *wamp.Publish:
+				m.Arguments, m.ArgumentsKw = payload("rw")
+			case *wamp.Call:
+				if !strings.HasPrefix(string(m.Procedure), "wamp.") {
+					m.Arguments, m.ArgumentsKw = payload("rw")
+				}
+			case *wamp.Yield:
+				m.Arguments, m.ArgumentsKw = payload("rw")
+			}
+			return true, nil
+		}
+		return true, nil
+	}
+	return true, nil
 }
